@@ -59,7 +59,22 @@ pub fn doc_rl(len: u64, runs: &[(u64, u64)], extra_width: u64) -> Vec<u64> {
     let mut out = vec![len, ones]; out.extend(doc_int(&flat, width)); out.extend(doc_int(&units, 4)); out
 }
 /// wavelet matrix, levels without support structures
-pub fn doc_wm(vals: &[u64]) -> Vec<u64> {
+pub fn doc_wm(vals: &[u64]) -> Vec<u64> { doc_wm_with(vals, &|_, bits| doc_bv(bits)) }
+/// The one exception to "never call the library": the document leaves the CONTENT of the three optional support structures
+/// to the implementation, so a level that carries some of them can only get those elements from the library's own
+/// writer (`enable_*` + `serialize`); everything around them is still laid out by the document's rules.
+pub fn lib_bv(bits: &[bool], flags: &str) -> Vec<u64> {
+    use simple_sds::ops::{Rank, Select, SelectZero};
+    use simple_sds::serialize::Serialize;
+    let mut bv: simple_sds::bit_vector::BitVector = bits.iter().cloned().collect();
+    if flags.contains('r') { bv.enable_rank(); }
+    if flags.contains('s') { bv.enable_select(); }
+    if flags.contains('z') { bv.enable_select_zero(); }
+    let mut bytes: Vec<u8> = Vec::new();
+    bv.serialize(&mut bytes).unwrap();
+    bytes.chunks(8).map(|c| { let mut w = [0u8; 8]; w.copy_from_slice(c); u64::from_le_bytes(w) }).collect()
+}
+pub fn doc_wm_with(vals: &[u64], level_enc: &dyn Fn(u64, &[bool]) -> Vec<u64>) -> Vec<u64> {
     let maxv = vals.iter().cloned().max().unwrap_or(0);
     let width = (64 - (maxv | 1).leading_zeros()) as u64;
     let mut out = vec![vals.len() as u64, width];
@@ -67,7 +82,7 @@ pub fn doc_wm(vals: &[u64]) -> Vec<u64> {
     for level in 0..width {
         let bit = 1u64 << (width - 1 - level);
         let bits: Vec<bool> = cur.iter().map(|v| v & bit != 0).collect();
-        out.extend(doc_bv(&bits));
+        out.extend(level_enc(level, &bits));
         let mut next: Vec<u64> = cur.iter().filter(|v| *v & bit == 0).cloned().collect();
         next.extend(cur.iter().filter(|v| *v & bit != 0).cloned());
         cur = next;
@@ -833,5 +848,23 @@ pub fn c07(g: &mut Gen) {
         lines.push("wm W items".to_string()); lines.push("wm W width".to_string());
         for v in [0u64, 1, 5, 299, 300] { lines.push(format!("wm W rank {} {}", vals.len() / 2, v)); lines.push(format!("wm W select 1 {}", v)); lines.push(format!("wm W contains {}", v)); }
         g.group(lines);
+        // the same matrix with levels that carry SOME of the optional supports (each subset; a different one per level):
+        // an admissible writer-side choice, and the loader has to complete whatever is missing
+        if !vals.is_empty() {
+            let subsets = ["", "r", "s", "z", "rs", "rz", "sz", "rsz"];
+            for shift in [4u64, 1, 6] {
+                let mut lines = vec![format!("ser load wm cut=- x=ok store=W : {}", ws(&doc_wm_with(&vals, &|level, bits| lib_bv(bits, subsets[((level + shift) % 8) as usize]))))];
+                lines.push(format!("wm W ref {}", ws(&vals)));
+                lines.push("wm W items".to_string());
+                let mut vs: Vec<u64> = vec![0, 1, 5, 299, 300]; vs.extend(vals.iter().take(6));
+                for v in vs {
+                    for i in [0usize, 1, vals.len() / 2, vals.len()] { lines.push(format!("wm W rank {} {}", i, v)); lines.push(format!("wm W pred {} {}", i, v)); lines.push(format!("wm W succ {} {}", i, v)); }
+                    for r in [0usize, 1, 2, vals.len() / 7] { lines.push(format!("wm W select {} {}", r, v)); }
+                    lines.push(format!("wm W contains {}", v));
+                }
+                for i in [0usize, vals.len() / 3, vals.len() - 1] { lines.push(format!("wm W invsel {}", i)); }
+                g.group(lines);
+            }
+        }
     }
 }
